@@ -242,6 +242,17 @@ pub fn judge(plan: &Plan, out: &Outcome, r: &mut Report) {
             }
         }
     }
+    // payload digests of every proposal that went out on the wire (committed or not)
+    let mut proposed: HashSet<Digest> = HashSet::new();
+    for ev in &out.log {
+        if let Kind::FrameOut { frame, .. } = &ev.kind {
+            if let Some(evlog::CMsg::Propose(b)) = frame.cons() {
+                for d in &b.payload {
+                    proposed.insert(d.clone());
+                }
+            }
+        }
+    }
     // committed payloads per node
     let mut committed: HashMap<usize, HashSet<Digest>> = HashMap::new();
     let mut hi_round: HashMap<usize, u64> = HashMap::new();
@@ -278,6 +289,14 @@ pub fn judge(plan: &Plan, out: &Outcome, r: &mut Report) {
                 continue;
             }
             let has = batches.iter().any(|d| committed.get(node).map_or(false, |s| s.contains(d)));
+            // The premise of this clause is a period without view changes. The repository's proposer does
+            // not re-propose the payload of a block that a view change orphaned, so in a run with view
+            // changes (possible only in the blocked-link classes) a transaction whose batch was proposed in
+            // a block this node never committed is outside the premise, not a violation.
+            if !has && timeouts > 0 && batches.iter().any(|d| proposed.contains(d)) {
+                r.count("C13.transactions_excused_proposal_orphaned_by_view_change", 1);
+                continue;
+            }
             if !has {
                 r.violate(
                     "C13",
@@ -329,6 +348,30 @@ pub fn judge(plan: &Plan, out: &Outcome, r: &mut Report) {
                 vec![label.clone()],
             );
         }
+        // Bounded lag: how long ago did the others first commit a round beyond the victim's final one?
+        // A fetch costs at most the mempool's retry delay + its 1 s timer (first target silent) and the
+        // consensus synchronizer's retry + its 5 s timer for the ancestors parked meanwhile.
+        let end_us = (200 + plan.submit_ms + plan.settle_ms) * 1000;
+        let mut passed_at: Option<u64> = None;
+        for ev in &out.log {
+            if let Kind::App { node, block } = &ev.kind {
+                if *node != to && block.round > mine {
+                    passed_at = Some(ev.vt_us);
+                    break;
+                }
+            }
+        }
+        let lag_ms = passed_at.map_or(0, |t| end_us.saturating_sub(t) / 1000);
+        r.max("max.C13.victim_lag_ms", lag_ms);
+        let allowed_ms = plan.mempool_sync_retry_ms + 1_000 + plan.sync_retry_ms + 5_000 + 10_000;
+        if from_batches > 0 && lag_ms > allowed_ms && !(mine + 200 < others_hi) {
+            r.violate(
+                "C13",
+                "node-missing-batches-lags",
+                format!("node {} (cut off from node {}'s batch broadcasts) ended at committed round {}, which the others had passed {} ms before the end of the run (allowed {} ms)", to, from, mine, lag_ms, allowed_ms),
+                vec![label.clone()],
+            );
+        }
         // every batch referenced by a block the victim committed is in its store (post-mortem, above)
     } else {
         r.sit("C13:fault_free_end_to_end");
@@ -345,6 +388,11 @@ pub fn run(class: &str, seed: u64, p: &Params) -> RunResult {
     let fingerprint = monitors::fingerprint(&ctx);
     for (loc, msg, th) in evlog::take_panics() {
         report.violate("C15", format!("panic@{}", loc), format!("panic in thread {}: {}", th, msg), vec![]);
+    }
+    if std::env::var("HSV_DUMP").is_ok() {
+        for ev in &out.log {
+            eprintln!("{}", monitors::describe(ev));
+        }
     }
     let sample = json!({"plan": format!("{:?}", plan), "submitted": out.submitted.len()});
     let _ = BTreeSet::<u8>::new();
